@@ -10,7 +10,8 @@ import BioscrapeModel.Properties.C14
 C12 — writing a model to SBML and reading it back preserves its behaviour.
 
 Proved here: the annotation text written for a reaction is read back as exactly the key/value pairs
-that were written, whenever names are valid SBML identifiers (no space, `=`); the stoichiometry written
+that were written, whenever names are valid SBML identifiers (no space, `=`), and the comma-separated delayed
+reactants / products inside a delay annotation are read back as the names written (`delay_list_roundtrip`); the stoichiometry written
 (distinct species with coefficients) and expanded on reading has the same counts, hence the same
 immediate and delayed stoichiometric columns (C03); rule kinds survive (C13).  libsbml's XML round trip
 is the identity by assumption; rate-law agreement after re-import is C01 (annotated types are rebuilt
@@ -95,6 +96,56 @@ theorem annotation_roundtrip (kvs : List (List Char × List Char)) (h : ValidTok
     have hmem : '=' ∈ kv.1 ++ '=' :: kv.2 := by simp
     rw [if_pos hmem, split_append_sep '=' kv.1 kv.2 hv.2.1, split_no_sep '=' kv.2 hv.2.2.2]
     simp only [ih hrest]
+
+/-! ### Comma-separated lists inside an annotation value (delayed reactants / products) -/
+
+/-- **`v.split(',')` undoes `','.join(names)`** for a non-empty list of names without commas. -/
+theorem split_join (c : Char) (ws : List (List Char)) (h : ∀ w ∈ ws, c ∉ w) (hne : ws ≠ []) :
+    splitOnChar c (joinWith c ws) = ws := by
+  induction ws with
+  | nil => exact absurd rfl hne
+  | cons w rest ih =>
+    cases rest with
+    | nil => simpa [joinWith] using split_no_sep c w (h w (by simp))
+    | cons w2 rest2 =>
+      have hw : c ∉ w := h w (by simp)
+      have hrest : ∀ x ∈ w2 :: rest2, c ∉ x := fun x hx => h x (List.mem_cons_of_mem _ hx)
+      show splitOnChar c (w ++ c :: joinWith c (w2 :: rest2)) = _
+      rw [split_append_sep c w _ hw, ih hrest (by simp)]
+
+theorem not_mem_join (c ch : Char) (ws : List (List Char)) (hw : ∀ w ∈ ws, ch ∉ w) (hc : ch ≠ c) :
+    ch ∉ joinWith c ws := by
+  induction ws with
+  | nil => simp [joinWith]
+  | cons w rest ih =>
+    cases rest with
+    | nil => simpa [joinWith] using hw w (by simp)
+    | cons w2 rest2 =>
+      show ch ∉ w ++ c :: joinWith c (w2 :: rest2)
+      simp only [List.mem_append, List.mem_cons, not_or]
+      exact ⟨hw w (by simp), hc, ih (fun x hx => hw x (List.mem_cons_of_mem _ hx))⟩
+
+/-- an empty list is written as the empty text and read back as the list holding one empty name (`''.split(',')` is
+`['']`): the importer's reactions carry that empty name, which names no species. -/
+theorem split_join_empty (c : Char) : splitOnChar c (joinWith c []) = [[]] := rfl
+
+/-- **delayed reactants and products survive the annotation**: the pair `reactants=<names joined by commas>` written
+into the delay annotation is read back (token split at `=`, value split at `,`) as the names that were written. -/
+theorem delay_list_roundtrip (key : List Char) (names : List (List Char)) (hk : ' ' ∉ key ∧ '=' ∉ key)
+    (hn : ∀ w ∈ names, ',' ∉ w ∧ ' ' ∉ w ∧ '=' ∉ w) (hne : names ≠ []) :
+    (decodeAnnotation (encodeAnnotation [(key, joinWith ',' names)])).map (fun kv => (kv.1, splitOnChar ',' kv.2))
+      = [(key, names)] := by
+  have hjoin := fun ch (hw : ∀ w ∈ names, ch ∉ w) (hc : ch ≠ ',') => not_mem_join ',' ch names hw hc
+  have hvalid : ValidTokens [(key, joinWith ',' names)] := by
+    intro kv hkv
+    simp only [List.mem_singleton] at hkv
+    subst hkv
+    exact ⟨hk.1, hk.2, hjoin ' ' (fun w hw => (hn w hw).2.1) (by decide), hjoin '=' (fun w hw => (hn w hw).2.2) (by decide)⟩
+  rw [annotation_roundtrip _ hvalid]
+  simp [split_join ',' names (fun w hw => (hn w hw).1) hne]
+
+example : splitOnChar ',' (joinWith ',' ["T".toList, "T".toList, "A".toList]) = ["T".toList, "T".toList, "A".toList] := by
+  decide
 
 /-! ### Stoichiometry written and read back -/
 
